@@ -220,6 +220,144 @@ func checkC19(c *Ctx) {
 	}
 	c.R.Min("R-path", 5)
 	c.R.Min("R-session-header", 5)
+	c19Suppressors(c, builders)
+	c19HeaderMerge(c)
+}
+
+// c19Suppressors: a boolean field that suppresses the session header (it is read in the guard of a
+// Set(Mcp-Session-Id) of a builder) may be switched on after construction only under control of a
+// comparison of the request's method with "initialize" — otherwise an ordinary answer without the
+// header makes later requests drop the session id that was issued.
+func c19Suppressors(c *Ctx, builders []*builder) {
+	flags := map[string]bool{}
+	for _, b := range builders {
+		if b.req == nil {
+			continue
+		}
+		reqVals := derivedReq(b.req)
+		pd := flow.NewPostDom(b.fn)
+		ir.EachCall(b.fn, func(call ssa.CallInstruction) {
+			n := ir.CallName(call)
+			if n != "(net/http.Header).Set" && n != "(net/http.Header).Add" {
+				return
+			}
+			args := call.Common().Args
+			if len(args) != 3 || !headerOfReq(args[0], reqVals) {
+				return
+			}
+			if k, ok := ir.ConstStr(args[1]); !ok || !strings.EqualFold(k, "Mcp-Session-Id") {
+				return
+			}
+			in := call.(ssa.Instruction)
+			for _, g := range pd.ControlDepsTransitive(in.Block()) {
+				cond := g.If.Cond
+				if f, _, ok := ir.LoadedField(cond); ok {
+					if bt, isB := f.Type.Underlying().(*types.Basic); isB && bt.Kind() == types.Bool && !g.Branch {
+						flags[f.Key()] = true
+					}
+				}
+			}
+		})
+	}
+	n := 0
+	for _, fn := range c.P.LibFns {
+		if c.InitOnly()[fn] {
+			continue
+		}
+		var pd *flow.PostDom
+		ir.EachInstr(fn, func(_ *ssa.BasicBlock, _ int, in ssa.Instruction) {
+			st, ok := in.(*ssa.Store)
+			if !ok {
+				return
+			}
+			fa, ok := st.Addr.(*ssa.FieldAddr)
+			if !ok {
+				return
+			}
+			key, _, _, base := ir.FullField(fa)
+			if !flags[key] || ir.BaseAlloc(base) {
+				return
+			}
+			cst, ok := st.Val.(*ssa.Const)
+			if !ok || cst.Value == nil || cst.Value.String() != "true" {
+				return
+			}
+			n++
+			if pd == nil {
+				pd = flow.NewPostDom(fn)
+			}
+			okInit := false
+			for _, g := range pd.ControlDepsTransitive(st.Block()) {
+				if g.Branch && boolFromCompare(fn, g.If.Cond, "initialize", 0) {
+					okInit = true
+				}
+			}
+			c.R.Check(okInit, "R-session-header", "suppressor "+key+" switched on in "+fname(fn), c.Pos(st.Pos()),
+				"only the answer to initialize can switch the session header off",
+				sprintf("%s switches %s on (which suppresses the Mcp-Session-Id header on later requests) on a path that is not restricted to the initialize exchange", fname(fn), key))
+		})
+	}
+	if len(flags) > 0 && n == 0 {
+		c.R.Hold("R-session-header", "suppressor flags never switched on after construction", "", "")
+	}
+}
+
+// c19HeaderMerge: a configuration field of type http.Header must accumulate what the options pass:
+// storing the option's own header value (or a clone of it) into the field replaces the headers
+// configured by earlier options.
+func c19HeaderMerge(c *Ctx) {
+	n := 0
+	for _, fn := range c.P.LibFns {
+		ir.EachInstr(fn, func(_ *ssa.BasicBlock, _ int, in ssa.Instruction) {
+			st, ok := in.(*ssa.Store)
+			if !ok {
+				return
+			}
+			fa, ok := st.Addr.(*ssa.FieldAddr)
+			if !ok {
+				return
+			}
+			key, _, typ, base := ir.FullField(fa)
+			if key == "" || ir.TypeStr(typ) != "net/http.Header" || ir.BaseAlloc(base) {
+				return
+			}
+			n++
+			fromArg := false
+			var visit func(v ssa.Value, d int)
+			visit = func(v ssa.Value, d int) {
+				if d > 4 {
+					return
+				}
+				switch x := v.(type) {
+				case *ssa.Parameter, *ssa.FreeVar:
+					if ts := ir.TypeStr(x.Type()); ts == "net/http.Header" || ts == "*net/http.Header" {
+						fromArg = true
+					}
+				case *ssa.Call:
+					if ir.CallName(x) == "(net/http.Header).Clone" {
+						visit(x.Call.Args[0], d+1)
+					}
+				case *ssa.ChangeType:
+					visit(x.X, d+1)
+				case *ssa.UnOp:
+					if _, isFV := x.X.(*ssa.FreeVar); isFV {
+						visit(x.X, d+1)
+					}
+				case *ssa.Phi:
+					for _, e := range x.Edges {
+						visit(e, d+1)
+					}
+				}
+			}
+			visit(st.Val, 0)
+			c.R.Check(!fromArg, "R-static-headers", "header configuration stored in "+fname(fn)+" ("+key+")", c.Pos(st.Pos()),
+				"the configured header set is only initialised empty / copied from configuration, entries are merged",
+				sprintf("%s assigns the option's header set to %s instead of merging into it: headers configured by an earlier option are lost", fname(fn), key))
+		})
+	}
+	if n < 2 {
+		c.R.Break("expected header configuration stores in the client options (found %d)", n)
+	}
 }
 
 // derivedReq: the request value and trivially derived values (phis of it).
